@@ -28,8 +28,9 @@ Oracle conventions (what "the same API" means, written from the statement and th
 * an enumeration <member introspectable="0"> is not API (the following members keep their order);
 * a method whose glib:get-property / glib:set-property names no property of its container that is
   API (none, or one marked introspectable="0") is a plain method;
-* a signal's run phase is first / last (default) / cleanup by its `when` attribute, any other value
-  names no phase; <attribute> children of <alias> are not stored (aliases are resolved away);
+* a signal's run phase is first / last / cleanup by its `when` attribute (case-insensitive); absent
+  or any other value means last; <attribute> children of <alias> are not stored (aliases are
+  resolved away);
 * an <attribute> belongs to the element that contains it;
 * members keep document order inside their kind (fields, properties, methods, signals, vfuncs,
   constants); directory entries keep document order;
@@ -125,12 +126,6 @@ ARRAY_KINDS = {'GLib.Array': 1, 'GLib.PtrArray': 2, 'GLib.ByteArray': 3}
 
 QUIRKS = {
     # name -> (key reported through ctx.report_failure, description)
-    'accessor-of-absent-property': (
-        'accessor-of-absent-property:linked-to-last-property',
-        'girnode.c get_index_of_member_type returns the index of the LAST member of the kind (not -1) when no member has '
-        'the name: a method whose glib:get-property / glib:set-property names a property that is not in the typelib '
-        '(introspectable="0" or nonexistent) is recorded as getter / setter of the last property of its class or '
-        'interface (only a container without any property gives the plain method 593dde9 intended)'),
     'attribute-after-type-child': (
         'attribute-after-type-child:attached-to-enclosing-node',
         'girparser.c end_type clears ctx->current_typed: an <attribute> that FOLLOWS the <type>/<array>/<callback> child '
@@ -196,8 +191,6 @@ class Oracle(object):
                 (tag == q('constant') and par is not None and par.tag in (q('class'), q('interface')))):
             return []
         typelike = [q(t) for t in self.TYPELIKE]
-        if tag == q('field') and par is not None and par.tag in (q('union'), q('glib:boxed'), q('interface')):
-            typelike.remove(q('callback'))       # skipped as a whole there: the field stays the current element
         seen, out = False, []
         for c in el:
             if c.tag in typelike:
@@ -377,17 +370,12 @@ class Oracle(object):
              'setter': False, 'getter': False, 'prop': None, 'attrs': self.attrs_of(el)}
         if tag in (q('method'), q('constructor')):
             sp, gp = el.get(q('glib:set-property')), el.get(q('glib:get-property'))
-            wrong = props and 'accessor-of-absent-property' in self.quirks
             if sp is not None:
                 if sp in props:
                     f['setter'], f['prop'] = True, sp
-                elif wrong:
-                    f['setter'], f['prop'] = True, props[-1]
             elif gp is not None:
                 if gp in props:
                     f['getter'], f['prop'] = True, gp
-                elif wrong:
-                    f['getter'], f['prop'] = True, props[-1]
         f['sig'] = self.x_signature(el, 'function')
         f['sig']['throws'] = f['throws']
         return f
@@ -429,10 +417,11 @@ class Oracle(object):
                 'type': self.x_type(self._type_child(el)), 'attrs': self.attrs_of(el)}
 
     def x_signal(self, el):
-        # run phase: "first", "last" (also the default when the attribute is absent) or "cleanup", compared without
-        # regard to case; any other value (a dumped flag name such as must-collect) names no phase
-        when = el.get('when')
-        when = 'last' if when is None else when.lower()
+        # run phase: "first", "last" or "cleanup", compared without regard to case; absent, or any other value (a
+        # dumped flag name such as must-collect, an empty value) -> the default phase, last
+        when = (el.get('when') or '').lower()
+        if when not in ('first', 'last', 'cleanup'):
+            when = 'last'
         sig = self.x_signature(el, 'signal')
         sig['throws'] = False
         return {'name': el.get('name'), 'deprecated': el.get('deprecated') == '1',
@@ -1096,14 +1085,6 @@ class Gen(object):
         fields = self.unique_members(self.count(), lambda: self.gen_field('union', True))
         for f in fields:
             el.add(f)
-        if fields and any(c.tag == 'callback' for c in fields[-1].children):
-            if self.p(0.85):
-                # a function pointer member is usually not the last typed member (see STALE_KEY: a function that follows
-                # it is swallowed by the compiler)
-                el.add(E('field', [('name', self.fresh('tail_member')), ('writable', '1')],
-                         [E('type', [('name', 'gint32'), ('c:type', 'gint32')])]))
-            else:
-                self.hit('union:callback-member-last')
         self.gen_methods(el, name)
         self.top.append(el)
         self.names['union'].append(name)
@@ -1999,66 +1980,6 @@ class Pipeline(object):
         return out
 
 
-STALE_KEY = 'function-after-callback-member-of-union:attached-to-that-field'
-STALE_WHAT = ('girparser.c start_function (b00e44e): the <callback> of a union / boxed / interface field is skipped without '
-              'clearing ctx->current_typed, so the next <function>/<method>/<constructor>/<callback> start inside a container '
-              '(before any parameter, return value, field, property, member or constant is read) is stored as THAT FIELD\'s '
-              'callback instead of as a member of its container: the function is missing and the typelib is corrupt')
-
-
-PENDING_FINDINGS[STALE_KEY] = STALE_WHAT
-
-
-def function_swallowed_by_stale_field(gir_text):
-    """-> name of the first function-like element that the compiler attaches to a stale union/boxed/interface field
-    (see STALE_WHAT), or None.  Follows the parser: elements marked introspectable="0" / shadowed-by and the
-    instance parameter are skipped as a whole; every typed element start replaces the current typed element, the end
-    of its type clears it -- except for the skipped <callback> of a union / boxed / interface field."""
-    try:
-        root = ET.fromstring(gir_text)
-    except ET.ParseError:
-        return None
-    nsel = root.find(q('namespace'))
-    if nsel is None:
-        return None
-    typed = (q('parameter'), q('return-value'), q('field'), q('property'), q('member'), q('constant'))
-    funcs = (q('function'), q('method'), q('constructor'), q('callback'))
-    flat = (q('union'), q('glib:boxed'), q('interface'))
-    state = {'stale': False, 'hit': None}
-
-    def walk(el, parent):
-        for c in el:
-            if state['hit'] is not None:
-                return
-            if c.get('introspectable') == '0' and c.tag != q('parameter') and c.tag != q('return-value'):
-                continue
-            if c.get('shadowed-by') is not None or c.tag == q('instance-parameter'):
-                continue
-            if c.tag in funcs and el is not nsel and state['stale']:
-                state['hit'] = '%s.%s' % (el.get('name') or el.get(q('glib:name')), c.get('name'))
-                return
-            if c.tag in typed:
-                state['stale'] = False
-                if c.tag == q('field') and el.tag in flat and c.find(q('callback')) is not None:
-                    state['stale'] = True
-                    continue                      # the callback is skipped as a whole
-            walk(c, el)
-
-    walk(nsel, None)
-    return state['hit']
-
-
-def signal_when_outside_schema(gir_text):
-    """-> the `when` values of signals that are not one of the schema's "first" | "last" | "cleanup" (docs/gir-1.2.rnc):
-    such a document is not a valid GIR, i.e. outside the property's quantifier"""
-    try:
-        root = ET.fromstring(gir_text)
-    except ET.ParseError:
-        return []
-    return sorted(set(sg.get('when') for sg in root.iter(q('glib:signal'))
-                      if sg.get('when') is not None and sg.get('when') not in ('first', 'last', 'cleanup')))
-
-
 def classify_rejection(res):
     """parse-level rejection (the GIR is outside 'GIRs the compiler accepts') vs a failure after parsing"""
     se = res['stderr']
@@ -2297,17 +2218,6 @@ class Judge(object):
             rec['public'] = pipe.public_names(d, case['ns'])
         return rec
 
-    def fail(self, case, what, text, replay):
-        """a failure of the property on `case`; documents of the known class STALE_KEY (their typelib is corrupt in
-        unpredictable ways) are reported under that key"""
-        if '_swallowed' not in case:
-            case['_swallowed'] = function_swallowed_by_stale_field(case['gir'])
-        if case['_swallowed'] is not None and what in ('crash', 'validate', 'decode', 'structure', 'api', 'public-load'):
-            self.cnt.hit('finding:function-after-callback-member-of-union')
-            self.ctx.report_failure(STALE_KEY, STALE_WHAT + ' -- e.g. %s: %s' % (case['_swallowed'], text[:200]), replay)
-        else:
-            self.ctx.report_failure(self.api_key(case, what), text, replay)
-
     def api_key(self, case, what):
         return 'api:%s:%s' % (hashlib.sha1(case['gir'].encode('utf-8')).hexdigest()[:12], what)
 
@@ -2329,17 +2239,8 @@ class Judge(object):
                                        'a GIR of the fixed corpus / limit set that the unchanged compiler accepts is now '
                                        'rejected: rc=%d %s' % (res['rc'], res['stderr'][-400:]), replay_obj(case))
                 return False
-            if 'Invalid signal run flags' in res['stderr'] and signal_when_outside_schema(case['gir']):
-                # when="must-collect" (gdump.c can write it), when="" ...: no run phase, the compiler's own validation
-                # refuses the typelib.  Not a valid GIR by the schema: outside, but worth a note
-                cnt.hit('outside:signal-when-not-in-schema')
-                if not any('signal-when' in n for n in ctx.notes):
-                    ctx.notes.append('signal-when: a <glib:signal when=%r> (not first|last|cleanup) is parsed, gets no run flag and '
-                                     'g-ir-compiler then aborts in its self-validation ("Invalid signal run flags")'
-                                     % signal_when_outside_schema(case['gir'])[0])
-                return False
             cnt.hit('fail:compiler-crashed')
-            self.fail(case, 'crash',
+            ctx.report_failure(self.api_key(case, 'crash'),
                                'g-ir-compiler parsed the GIR and then failed while writing/validating the typelib: rc=%d %s'
                                % (res['rc'], res['stderr'][-600:]), replay_obj(case))
             return False
@@ -2361,11 +2262,11 @@ class Judge(object):
                 cnt.hit('validate:ok')
             else:
                 cnt.hit('fail:validate')
-                self.fail(case, 'validate',
+                ctx.report_failure(self.api_key(case, 'validate'),
                                    'g_typelib_validate rejects the typelib the compiler wrote: ' + cval[:300], replay_obj(case))
         if 'error' in dec:
             cnt.hit('fail:decode-error')
-            self.fail(case, 'decode',
+            ctx.report_failure(self.api_key(case, 'decode'),
                                'the field-by-field decoder cannot read the typelib according to the format: %r' % (dec['error'],),
                                replay_obj(case))
             return
@@ -2373,7 +2274,7 @@ class Judge(object):
         probs = structural_problems(raw, data, pipe.sizes)
         if probs:
             cnt.hit('fail:structure')
-            self.fail(case, 'structure',
+            ctx.report_failure(self.api_key(case, 'structure'),
                                'sizes/offsets disagree with the format: ' + '; '.join(probs[:4]), replay_obj(case))
         else:
             cnt.hit('structure:ok')
@@ -2390,7 +2291,7 @@ class Judge(object):
             cnt.hit('fail:api-differs')
             exp_q = expected_api(case['gir'], case.get('deps', ()), case.get('shlib_option'), quirks=QUIRKS.keys())
             dq = diff(exp_q, actual)
-            self.fail(case, 'api',
+            ctx.report_failure(self.api_key(case, 'api'),
                                'the decoded typelib does not describe the API of the GIR: ' + '; '.join((dq or d0)[:4]),
                                replay_obj(case, {'differences': (dq or d0)[:12]}))
         self.collect_sizes(case, raw, data)
@@ -2398,7 +2299,7 @@ class Judge(object):
         if public is not None:
             if isinstance(public, str):
                 cnt.hit('public:load-failed')
-                self.fail(case, 'public-load',
+                ctx.report_failure(self.api_key(case, 'public-load'),
                                    'the public repository API cannot load the typelib: ' + public[:300], replay_obj(case))
             else:
                 mine = [(e['name'], e['blob_type']) for e in raw['entries'] if e['local']]
